@@ -15,7 +15,12 @@ Reading of the statement in the model (ForML/Model/Codec.lean):
   the unsupported-encoding error": `getEncoder` characterised by the first client range that
   matches any table entry (and the first table entry for it); `none` iff nothing matches.
 * "the chosen decoder matches the declared content type": `getDecoder`.
-* round trip: the unquoted `text/csv` token slice (`C19_codec_roundtrip_partial`).
+* round trip ("encoding then decoding a table with a matching codec pair returns the same table"):
+  proved on the unquoted `text/csv` token slice (`C19_codec_roundtrip_partial`); refuted at full
+  strength for typed cells by two kernel-checked witnesses that the harness replays on the real
+  code — a text cell that looks like a number through `text/csv` (`C19_codec_cell_roundtrip_*`,
+  finding C19-F1) and a float cell with more than ten decimal places through any JSON encoder
+  (`C19_codec_float_roundtrip_*`, finding C19-F2; `C19_codec_float_rounding_bound` says how far off).
 -/
 import ForML.Lemmas.C19
 import ForML.Generated.C19Tables
@@ -78,6 +83,22 @@ theorem C19_parse_nonempty (h : Str) (es : List Encoding) (hp : parse h = .ok es
     simp at h1
     omega
 
+/-- the head of the result (what the REST gateway takes as *the* content type:
+`Encoding.parse(content_type)[0]`) is a range of maximal quality, and the first written among those -/
+theorem C19_parse_head (rs : List Range) (r : Range) (t : List Range) (h : sortDesc rs = r :: t) :
+    r ∈ rs ∧ (∀ r' ∈ rs, r'.q ≤ r.q) ∧ (rs.filter (fun x => x.q == r.q)).head? = some r := by
+  have hperm := sortDesc_perm rs
+  have hsorted := sortDesc_sorted rs
+  have hstable := sortDesc_stable rs r.q
+  rw [h] at hperm hsorted hstable
+  refine ⟨hperm.mem_iff.mp (by simp), ?_, ?_⟩
+  · intro r' hr'
+    have := hperm.mem_iff.mpr hr'
+    rcases List.mem_cons.mp this with rfl | ht
+    · exact Int.le_refl _
+    · exact (List.pairwise_cons.mp hsorted).1 r' ht
+  · rw [← hstable]; simp
+
 /-! ### wildcard matching -/
 
 /-- `fnmatch` as modelled decides the declarative wildcard semantics of the compiled pattern -/
@@ -92,6 +113,28 @@ theorem C19_glob_star (ts : List Tok) (s : Str) :
 theorem C19_glob_one (t : Tok) (ht : t ≠ .star) (ts : List Tok) (s : Str) :
     Matches (t :: ts) s ↔ ∃ c r, s = c :: r ∧ t.Accepts c ∧ Matches ts r :=
   Matches_cons_iff t ht ts s
+
+/-- a pattern without `*`, `?`, `[` matches exactly itself -/
+theorem C19_glob_literal (pat name : Str) (hp : pat.all plain = true) : glob pat name = true ↔ name = pat := by
+  unfold glob compile
+  rw [compileAux_plain _ _ (Nat.le_refl _) hp]
+  exact globToks_lits pat name
+
+/-- `*/*` matches exactly the kinds that contain a `/` -/
+theorem C19_glob_any (name : Str) : glob ['*', '/', '*'] name = true ↔ '/' ∈ name := by
+  rw [C19_glob]
+  have hc : compile ['*', '/', '*'] = [.star, .lit '/', .star] := by decide +kernel
+  rw [hc, Matches_star_iff]
+  constructor
+  · rintro ⟨pre, suf, rfl, hm⟩
+    obtain ⟨c, r, rfl, ha, _⟩ := (Matches_cons_iff (.lit '/') (by simp) _ _).mp hm
+    simp only [Tok.Accepts] at ha
+    subst ha
+    simp
+  · intro h
+    obtain ⟨s, t, rfl⟩ := List.append_of_mem h
+    refine ⟨s, '/' :: t, rfl, Matches.one _ _ _ _ rfl ?_⟩
+    exact (Matches_star_iff [] t).mpr ⟨t, [], by simp, Matches.nil⟩
 
 /-- `Encoding.match`: no `*` in the other kind, kind matches as a wildcard pattern, every option of
 the pattern is found in the other with an equal value -/
@@ -277,7 +320,52 @@ theorem C19_codec_cell_roundtrip_partial (s : Str) (h : looksNumeric s = false) 
     Cell.read (Cell.text s).render = .text s := by
   simp [Cell.read, Cell.render, h]
 
+/-! ### float cells through the JSON encoders (known finding C19-F2)
+
+`DataFrame.to_json` is used with its default `double_precision=10` by every JSON entry of
+`ENCODERS`: decimal places beyond the tenth are rounded away by the *encoder*, whichever decoder
+reads the text. -/
+
+/-- the statement at full strength: the written number is the cell's number -/
+def C19_codec_float_roundtrip_full : Prop := ∀ d : Dec, d.jsonRender.same d = true
+
+/-- false: `1e-12` is written as `0.0` -/
+theorem C19_codec_float_roundtrip_counterexample : ¬ C19_codec_float_roundtrip_full := by
+  intro h
+  exact absurd (h ⟨1, 12⟩) (by decide +kernel)
+
+/-- cells with at most ten decimal places are written as they are -/
+theorem C19_codec_float_roundtrip_partial (d : Dec) (h : d.scale ≤ jsonPrecision) :
+    d.jsonRender = d ∧ d.jsonRender.same d = true := by
+  simp [Dec.jsonRender, h, Dec.same]
+
+/-- beyond ten places the written number is the cell's number rounded to ten places: it is off by
+at most half a unit of the tenth place (`2·|written − cell| ≤ 10⁻¹⁰`, scaled by `10^scale`) -/
+theorem C19_codec_float_rounding_bound (d : Dec) (h : jsonPrecision < d.scale) :
+    d.jsonRender.scale = jsonPrecision ∧
+    2 * (d.jsonRender.n * 10 ^ (d.scale - jsonPrecision)) ≤ 2 * d.n + 10 ^ (d.scale - jsonPrecision) ∧
+    2 * d.n < 2 * (d.jsonRender.n * 10 ^ (d.scale - jsonPrecision)) + 10 ^ (d.scale - jsonPrecision) + 1 := by
+  have hns : ¬ d.scale ≤ jsonPrecision := by omega
+  have hm : 10 ^ (d.scale - jsonPrecision) = 2 * (5 * 10 ^ (d.scale - jsonPrecision - 1)) := by
+    have : d.scale - jsonPrecision = (d.scale - jsonPrecision - 1) + 1 := by omega
+    rw [this, Nat.pow_succ]; simp; omega
+  have hb := roundDiv_bound d.n _ _ hm (Nat.pow_pos (by decide))
+  simp only [Dec.jsonRender, hns, if_false]
+  exact ⟨trivial, hb⟩
+
 /-! ### non-vacuity (tests on concrete objects, not part of the claim) -/
+
+example : (⟨12345, 4⟩ : Dec).jsonRender = ⟨12345, 4⟩ := by decide +kernel
+example : (⟨123456789016, 12⟩ : Dec).jsonRender = ⟨1234567890, 10⟩ := by decide +kernel
+example : (⟨123456789096, 12⟩ : Dec).jsonRender = ⟨1234567891, 10⟩ := by decide +kernel
+example : glob "text/csv".toList "text/csv".toList = true :=
+  (C19_glob_literal _ _ (by decide +kernel)).mpr rfl
+example : glob "*/*".toList "text/csv".toList = true := (C19_glob_any _).mpr (by decide +kernel)
+example : sortDesc [⟨"a".toList, [], 500⟩, ⟨"b".toList, [], 1000⟩, ⟨"c".toList, [], 1000⟩]
+    = [⟨"b".toList, [], 1000⟩, ⟨"c".toList, [], 1000⟩, ⟨"a".toList, [], 500⟩] := by decide +kernel
+-- a negative or > 1 quality is ordered like any number (`float` accepts it)
+example : (parse "a;q=-1, b;q=2, c;q=+0.5, d;q=-0.0, e;q=0".toList).toOption.map (·.map (·.kind))
+    = some ["b".toList, "c".toList, "d".toList, "e".toList, "a".toList] := by decide +kernel
 
 example : looksNumeric "x7".toList = false := by decide +kernel
 example : Cell.read (Cell.int 42).render = .int 42 := by decide +kernel
